@@ -120,7 +120,8 @@ pub fn partial_authorize(v: &J) -> Result<J, String> {
     }
     let q = partial_request(v.get("request").ok_or("no request")?)?;
     let mut es: Entities = util::entities(v.get("entities").ok_or("no entities")?)?;
-    if v.get("partial_store").and_then(|b| b.as_bool()).unwrap_or(false) {
+    let partial_store = v.get("partial_store").and_then(|b| b.as_bool()).unwrap_or(false);
+    if partial_store {
         es = es.partial();
     }
     let auth = Authorizer::new();
@@ -154,6 +155,21 @@ pub fn partial_authorize(v: &J) -> Result<J, String> {
         for u in s.get("entity_unknowns").and_then(|x| x.as_array()).unwrap_or(&empty) {
             let u = util::uid(u)?;
             mapping.insert(u.to_smolstr_key(), ast::Value::from(u.clone()));
+        }
+        // ... and so is every entity the partial store could not dereference while producing the
+        // residuals (PartialResponse::unknown_entities at the API level)
+        if partial_store {
+            for (_, (e, _)) in presp.residual_permits.iter().chain(presp.residual_forbids.iter()) {
+                for u in e.unknowns() {
+                    if let Some(ast::Type::Entity { .. }) = &u.type_annotation {
+                        if u.name != "principal" && u.name != "resource" {
+                            if let Ok(uid) = ast::EntityUID::from_str(u.name.as_str()) {
+                                mapping.entry(u.name.clone()).or_insert_with(|| ast::Value::from(uid));
+                            }
+                        }
+                    }
+                }
+            }
         }
         let cq = util::request(s.get("request").ok_or("no concrete request")?)?;
         let ces = util::entities(s.get("entities").ok_or("no concrete entities")?)?;
